@@ -171,40 +171,73 @@ theorem stego_prefix (lbl : List (List UInt8)) (w : Nat) (pico : Bytes)
 
 theorem header_length (t : Bytes) : (header t).length = 8 := rfl
 
-theorem getBytes_error (code : Bytes)
-    (h : ¬ (if (compress code).length + 8 < code.length then code.length < 65536 ∧ 8 + (compress code).length ≤ codeAreaLen
-      else code.length ≤ codeAreaLen)) :
-    ∃ e, getBytesFromCode code = .error e := by
+theorem contains_zero_iff (code : Bytes) : code.contains (0 : UInt8) = true ↔ (0 : UInt8) ∈ code := by
+  simp
+
+theorem rawOk_iff (code : Bytes) :
+    rawOk code = true ↔ (0 : UInt8) ∉ code ∧ code ≠ [0x3a, 0x63, 0x3a] := by
+  simp [rawOk]
+
+theorem useCompressed_iff (code : Bytes) (v : Nat) :
+    useCompressed code v = true ↔
+      v ≠ 0 ∧ ((compress code).length + 8 < code.length ∨ rawOk code = false) := by
+  simp [useCompressed]
+
+theorem useCompressed_ne_zero (code : Bytes) (v : Nat) (h : useCompressed code v = true) : v ≠ 0 :=
+  ((useCompressed_iff code v).mp h).1
+
+theorem useCompressed_zero (code : Bytes) : useCompressed code 0 = false := by
+  simp [useCompressed]
+
+/-- not stored compressed in a cart of version ≥ 1: the raw form can represent the code -/
+theorem rawOk_of_not_useCompressed (code : Bytes) (v : Nat) (hv : v ≠ 0) (h : useCompressed code v = false) :
+    (0 : UInt8) ∉ code ∧ code ≠ [0x3a, 0x63, 0x3a] := by
+  rw [← rawOk_iff]
+  cases hr : rawOk code with
+  | true => rfl
+  | false =>
+    have : useCompressed code v = true := (useCompressed_iff code v).mpr ⟨hv, Or.inr hr⟩
+    rw [h] at this; cases this
+
+theorem getBytes_error (code : Bytes) (v : Nat)
+    (h : ¬ (if useCompressed code v = true then code.length < 65536 ∧ 8 + (compress code).length ≤ codeAreaLen
+      else ¬ (v = 0 ∧ (0 : UInt8) ∈ code) ∧ code.length ≤ codeAreaLen)) :
+    ∃ e, getBytesFromCode code v = .error e := by
   unfold getBytesFromCode
-  generalize compress code = comp at h ⊢
+  by_cases h0 : v = 0 ∧ code.contains 0 = true
+  · exact ⟨_, by rw [if_pos h0]⟩
+  rw [if_neg h0]
   simp only [List.length_append, header_length]
-  by_cases hc : comp.length + 8 < code.length
+  by_cases hc : useCompressed code v = true
   · simp only [hc, if_true] at h ⊢
     by_cases h1 : code.length / 256 > 255
     · exact ⟨_, by rw [if_pos h1]⟩
     · rw [if_neg h1]
-      have : 8 + comp.length > codeAreaLen := by
+      have : 8 + (compress code).length > codeAreaLen := by
         false_or_by_contra; apply h; constructor <;> omega
       exact ⟨_, by rw [if_pos this]⟩
-  · simp only [hc, if_false] at h ⊢
-    exact ⟨_, by rw [if_pos (by omega)]⟩
+  · rw [if_neg hc] at h ⊢
+    rw [contains_zero_iff] at h0
+    have : code.length > codeAreaLen := by
+      false_or_by_contra; apply h; exact ⟨h0, by omega⟩
+    exact ⟨_, by rw [if_pos this]⟩
 
-theorem getBytes_compressed (code : Bytes) (hc : (compress code).length + 8 < code.length)
+theorem getBytes_compressed (code : Bytes) (v : Nat) (hc : useCompressed code v = true)
     (h1 : code.length < 65536) (h2 : 8 + (compress code).length ≤ codeAreaLen) :
-    getBytesFromCode code = .ok (header code ++ compress code ++
+    getBytesFromCode code v = .ok (header code ++ compress code ++
       List.replicate (codeAreaLen - (8 + (compress code).length)) 0) := by
   unfold getBytesFromCode
-  generalize compress code = comp at *
+  have hv := useCompressed_ne_zero code v hc
+  rw [if_neg (fun h => hv h.1), if_pos hc]
   simp only [List.length_append, header_length]
-  rw [if_pos hc, if_neg (by omega), if_neg (by omega)]
+  rw [if_neg (by omega), if_neg (by omega)]
 
-theorem getBytes_raw (code : Bytes) (hc : ¬ (compress code).length + 8 < code.length)
-    (h1 : code.length ≤ codeAreaLen) :
-    getBytesFromCode code = .ok (code ++ List.replicate (codeAreaLen - code.length) 0) := by
+theorem getBytes_raw (code : Bytes) (v : Nat) (hc : ¬ useCompressed code v = true)
+    (h0 : ¬ (v = 0 ∧ (0 : UInt8) ∈ code)) (h1 : code.length ≤ codeAreaLen) :
+    getBytesFromCode code v = .ok (code ++ List.replicate (codeAreaLen - code.length) 0) := by
   unfold getBytesFromCode
-  generalize compress code = comp at *
-  simp only []
-  rw [if_neg hc, if_neg (by omega)]
+  rw [← contains_zero_iff] at h0
+  rw [if_neg h0, if_neg hc, if_neg (by omega)]
 
 /-! ### code area: reader, raw form -/
 
@@ -233,10 +266,10 @@ theorem raw_idxOf (code : Bytes) (k : Nat) (hnul : (0 : UInt8) ∉ code) :
   by_cases hk : 0 < k <;> simp [hk]
 
 theorem getCode_raw (code : Bytes) (k v : Nat) (hlen : code.length + k = codeAreaLen)
-    (hnul : (0 : UInt8) ∉ code) (hnc : code ≠ [0x3a, 0x63, 0x3a]) :
+    (hnul : (0 : UInt8) ∉ code) (hnc : v = 0 ∨ code ≠ [0x3a, 0x63, 0x3a]) :
     getCodeFromBytes (code ++ List.replicate k 0) v = .ok (code.length, replaceCR (code ++ [10]), none) := by
   unfold getCodeFromBytes
-  rw [if_pos (Or.inr (raw_take4 code k hnul hnc)), raw_idxOf code k hnul]
+  rw [if_pos (hnc.imp id (raw_take4 code k hnul)), raw_idxOf code k hnul]
   by_cases hk : 0 < k
   · simp [hk]
   · have : k = 0 := by omega
@@ -333,7 +366,7 @@ theorem pixels_roundtrip (lbl : List (List UInt8)) (w : Nat) (c : Cart) (area : 
     (hrows : ∀ r ∈ lbl, r.length = 4 * w) (hroom : 0x8001 ≤ w * lbl.length)
     (hgfx : c.gfx.length = 0x2000) (hgff : c.gff.length = 0x100) (hmap : c.map.length = 0x1000)
     (hsfx : c.sfx.length = 0x1100) (hmusic : c.music.length = 0x100) (hver : c.version < 256)
-    (hb : getBytesFromCode c.code = .ok area) (ha : area.length = codeAreaLen)
+    (hb : getBytesFromCode c.code c.version = .ok area) (ha : area.length = codeAreaLen)
     (n : Nat) (code : Bytes) (sz : Option Nat)
     (hcode : getCodeFromBytes area c.version = .ok (n, code, sz)) :
     ∃ rows, toPixels lbl c = .ok rows ∧ fromPixels rows = .ok { c with code := code, label := none } := by
